@@ -104,3 +104,32 @@ CONTRACTS += [
                       ('cache-stays-consistent', 'cache_consistent(model_cache())'),
                       ('existing-entries-are-never-rebound', 'old_entries_kept(model_cache(), entries0)')]),
 ]
+
+
+def registration_consistency(tier, seed):
+    """Closed (syntactic, exhaustive over the registration code; closed/registrations.py): every register_model call of every
+    recogniser builds the model of culture X from classes of language X, and no (type, culture) pair is registered twice."""
+    import json
+    import os
+    import subprocess
+    VERIF = os.path.dirname(os.path.dirname(os.path.abspath(__file__)))
+    p = subprocess.run(['/venv/bin/python', os.path.join(VERIF, 'closed', 'registrations.py')], capture_output=True, text=True, timeout=300)
+    try:
+        r = json.loads(p.stdout)
+    except Exception:
+        return [dict(name='registrations/culture-consistency', kind='closed', verdict='unknown', detail=(p.stdout + p.stderr)[-500:])]
+    if r['checked'] == 0:
+        return [dict(name='registrations/culture-consistency', kind='closed', verdict='unknown', detail='no register_model call found')]
+    if r['bad']:
+        return [dict(name='registrations/culture-consistency', kind='closed', verdict='sat', backend='closed-eval', replayed=True,
+                     witness=r['bad'][0], detail=f'{len(r["bad"])} inconsistent registrations: {r["bad"][:4]}')]
+    return [dict(name='registrations/culture-consistency', kind='closed', verdict='unsat', backend='closed-eval', count=r['checked'],
+                 detail=f'{r["checked"]} register_model calls: each model is built from classes of its own culture (an additional '
+                        'English component is allowed next to them), no (type, culture) pair twice per recogniser')]
+
+
+registration_consistency.props = ['C17']
+try:
+    CLOSED.append(registration_consistency)
+except NameError:
+    CLOSED = [registration_consistency]
